@@ -84,6 +84,8 @@ func main() {
 		os.Exit(cmdCheck(os.Args[2:]))
 	case "explain":
 		os.Exit(cmdExplain(os.Args[2:]))
+	case "checkall":
+		os.Exit(cmdCheckAll())
 	default:
 		usage()
 	}
@@ -254,4 +256,65 @@ func cmdExplain(args []string) int {
 		return 0
 	}
 	return 1
+}
+
+// cmdCheckAll (dev helper, not referenced by the manifest): one load, all properties, one line each:
+//   Cnn status=<pass|VIOLATION|UNDECIDED> keys=<violated keys;...>
+// No evidence is written.
+func cmdCheckAll() int {
+	p, err := loadProgram("linux", "amd64")
+	if err != nil {
+		fmt.Println("LOAD-ERROR", err)
+		return 2
+	}
+	known, _ := loadKnown(verifDir())
+	var ids []string
+	for id := range props {
+		ids = append(ids, id)
+	}
+	sort.Strings(ids)
+	rc := 0
+	for _, id := range ids {
+		c := &Ctx{Program: p, Prop: id, Tier: "quick"}
+		props[id].run(c)
+		var bad, und []string
+		have := map[string]bool{}
+		for _, o := range c.Obs {
+			have[o.Key] = true
+			switch o.Status {
+			case "violated":
+				isKnown := false
+				for _, k := range known {
+					if k.Prop == id && k.Key == o.Key {
+						isKnown = true
+					}
+				}
+				if !isKnown {
+					bad = append(bad, o.Key)
+				}
+			case "undecided":
+				und = append(und, o.Key)
+			}
+		}
+		if base, err := os.ReadFile(filepath.Join(verifDir(), "baseline", id+".keys")); err == nil {
+			for _, k := range strings.Split(string(base), "\n") {
+				if k = strings.TrimSpace(k); k != "" && !have[k] {
+					und = append(und, "vanished:"+k)
+				}
+			}
+		}
+		switch {
+		case len(bad) > 0:
+			rc = 1
+			fmt.Printf("%s status=VIOLATION keys=%s\n", id, strings.Join(uniq(bad), ";"))
+		case len(und) > 0:
+			if rc == 0 {
+				rc = 2
+			}
+			fmt.Printf("%s status=UNDECIDED keys=%s\n", id, strings.Join(uniq(und), ";"))
+		default:
+			fmt.Printf("%s status=pass\n", id)
+		}
+	}
+	return rc
 }
